@@ -46,6 +46,11 @@ Proof.
   unfold pad_left, g_torch_pad_left_0, g_torch_pad_left_1, g_torch_pad_left_2. destruct (centered c), (kaldi c); lia.
 Qed.
 
+(* the model stores samples into the frame buffer unchanged and its buffer has no dtype of its own: the
+   source allocates the buffer once, at construction, as float64 (every floating input dtype embeds exactly) *)
+Lemma buffer_storage_tie : g_stft_buf_is_f64_alloc_once = true.
+Proof. reflexivity. Qed.
+
 Section Tie.
 Context {A : Type}.
 
